@@ -304,4 +304,4 @@ def eval_case(case):
 
 def parts(tier):
     t = tier == 'thorough'
-    return [Part('histories', eval_case, strategy=strategy, examples=20000 if t else 2000)]
+    return [Part('histories', eval_case, strategy=strategy, examples=80000 if t else 2000)]
